@@ -194,6 +194,8 @@ class _ToTupleStandardValidator(_ToTupleValidator[SuccessT]):
     def __eq__(self, other: Any) -> bool:
         return (
             type(other) is type(self)
+            and self._TYPE is other._TYPE
+            and self.coerce == other.coerce
             and self.predicates == other.predicates
             and self.predicates_async == other.predicates_async
             and self.preprocessors == other.preprocessors
